@@ -405,6 +405,76 @@ def gen_codec_cases(rng, n):
             yield ("hash_of_bytes_vs_string", "std.md5(%s) == std.md5(std.decodeUTF8(std.encodeUTF8(%s)))" % (J(s), J(s)), True)
 
 
+# ------------------------------------------------------------------------------------------------
+# systematic grids
+
+def sign_grid_cases():
+    """Every combination of a prefix (signs, doubled / mixed signs, blanks, radix prefixes, look-alike characters), a digit
+    body and a suffix for the three integer parsers.  Accepted syntax (upstream): parseInt -?[0-9]+, parseOctal [0-7]+,
+    parseHex [0-9a-fA-F]+; everything else is an error (never a crash), accepted strings have the integer's value."""
+    prefixes = ["", "-", "+", "--", "---", "-+", "+-", "++", " ", " -", "- ", "-_", "_", "_-", "\u2212", "-\u2212", "0x", "0X", "-0x", "0o",
+                "0b", "\t-", "-\n", "\ufeff", "-\u00a0", "- -", "(-", "-0-", "0-"]
+    bodies = ["", "0", "5", "7", "12", "000", "007", "1f", "F", "8", "9", "123456789", "77", "0" * 40 + "1", "9" * 20]
+    suffixes = ["", "-", " ", "+", "_", ".", ".0", "e1", "L", "\n"]
+    out = []
+    for fn, pat in (("parseInt", r"-?[0-9]+"), ("parseOctal", r"[0-7]+"), ("parseHex", r"[0-9a-fA-F]+")):
+        base = {"parseInt": 10, "parseOctal": 8, "parseHex": 16}[fn]
+        for pre in prefixes:
+            for body in bodies:
+                for suf in (suffixes if (pre in ("", "-", "--") or body in ("5", "")) else [""]):
+                    text = pre + body + suf
+                    if re.fullmatch(pat, text):
+                        exp = num_pred(int(text, base), len(text), exact_upto=15)
+                        out.append((fn + "_grid_valid", "std.%s(%s)" % (fn, jstr(text)), exp))
+                    else:
+                        out.append((fn + "_grid_invalid", "std.%s(%s)" % (fn, jstr(text)), Err()))
+    return out
+
+
+def number_grammar_cases():
+    """The whole RFC 8259 number grammar (sign, integer part, fraction, exponent letter in both cases, exponent sign,
+    exponent digits with leading zeros), alone / in an array / as an object value: parseJson gives the correctly rounded
+    double, and parseYaml gives what parseJson gives."""
+    out = []
+    for sign in ("", "-"):
+        for ip in ("0", "7", "12", "120", "9007199254740993"):
+            for frac in ("", ".0", ".5", ".25", ".125000", ".000001", ".999999999999999999999"):
+                for exp in [""] + [e + sg + dg for e in "eE" for sg in ("", "+", "-") for dg in ("0", "1", "03", "10", "22", "300")]:
+                    text = sign + ip + frac + exp
+                    try:
+                        v = float(text)
+                    except ValueError:
+                        continue
+                    if v in (math.inf, -math.inf):
+                        out.append(("number_grammar_overflow", "std.parseJson(%s)" % jstr(text), Err()))
+                        continue
+                    for wrap in ("%s", "[%s]", "{\"a\": %s}", " %s ", "[1, %s, 2]"):
+                        doc = wrap % text
+                        if wrap == "%s":
+                            out.append(("number_grammar_json_value", "std.parseJson(%s)" % jstr(doc),
+                                        (lambda v: lambda r: None if r.cls == "value" and isinstance(r.value, float) and common.f2bits(r.value) == common.f2bits(v) or (v == 0 and r.cls == "value" and r.value == 0)
+                                         else "parseJson(%s) is not the correctly rounded double" % r.brief())(v)))
+                        out.append(("number_grammar_yaml_equals_json", "local d = %s; std.parseYaml(d) == std.parseJson(d)" % jstr(doc), True))
+    # texts the JSON grammar does not allow must be rejected by parseJson
+    for bad in ("01", "-01", "1.", ".5", "-.5", "1e", "1e+", "+1", "1.e5", "0x10", "1_0", "1E", "--1", "1.5.5", "1e5.5", "Infinity", "NaN", "-", "00",
+                "1 2"):
+        out.append(("number_grammar_invalid", "std.parseJson(%s)" % jstr(bad), Err()))
+        out.append(("number_grammar_invalid", "std.parseJson(%s)" % jstr("[" + bad + "]"), Err()))
+    return out
+
+
+def grid_shard(args):
+    i, k = args
+    cases = (sign_grid_cases() + number_grammar_cases())[i::k]
+    agg = Agg()
+    ev = Ev(agg)
+    try:
+        run_cases(agg, ev, cases, timeout=60.0)
+    finally:
+        ev.close()
+    return agg
+
+
 GENS = {"num": gen_num_cases, "json": gen_json_cases, "yaml": gen_yaml_cases, "codec": gen_codec_cases}
 
 
@@ -433,12 +503,19 @@ def run(tier, seed):
         shards.append((seed * 29 + i, "codec", 500 * scale))
     for a in common.pmap(shard, shards):
         total.merge(a)
+    grid = sign_grid_cases() + number_grammar_cases()
+    total.count("grid_cases", len(grid))
+    for a in common.pmap(grid_shard, [(i, 32) for i in range(32)]):
+        total.merge(a)
     rule = ("digit strings of 1..400 digits (exact when <= 15 digits, <= 1 ulp beyond) and the same with a non-digit "
             "(ASCII and 2-/3-/4-byte) at a random position for parseInt/Octal/Hex; generated + mutated JSON documents "
             "vs an own strict RFC 8259 decoder with duplicate-key/overflow rejection (accept/reject and value); "
             "parseYaml totality on a mutated YAML corpus (anchors, aliases, tags, multi-docs, deep nesting) and "
             "agreement with parseJson on JSON documents without tabs/escapes; base64/UTF-8/hash functions vs "
             "Python's base64/codecs/hashlib incl. block-boundary lengths and corrupted encodings; escapeString* "
-            "inverted by json/ast/shlex. distinct_nontrivial = distinct (family, source) pairs compared.")
+            "inverted by json/ast/shlex; systematic grids: 29 prefixes (signs doubled/mixed, blanks, radix prefixes, look-alike "
+            "characters) x 15 digit bodies x 10 suffixes for parseInt/Octal/Hex against the accepted syntax; the whole RFC 8259 number "
+            "grammar (sign x integer part x fraction x e/E x exponent sign x exponent digits) alone, in arrays and objects: parseJson "
+            "correctly rounded, parseYaml == parseJson, non-JSON number texts rejected. distinct_nontrivial = distinct (family, source) pairs compared.")
     return common.finish(PROP, tier, seed, total, rule, t0,
                          assumptions=["Python hashlib/base64/codecs/shlex/ast are correct", "lone surrogate escapes are excluded from parseJson accept/reject comparison"])
